@@ -150,12 +150,13 @@ def stack_slot(tid, cp, idx):
 
 class State(object):
     """one merged control state of a thread: position, guard and its own local environment"""
-    __slots__ = ('cp', 'blk', 'phase', 'g', 'env', 'owned', 'lc')
+    __slots__ = ('cp', 'blk', 'phase', 'g', 'env', 'owned', 'lc', 'fg')
     def __init__(s, cp, blk, phase, g, env):
-        s.cp = cp; s.blk = blk; s.phase = phase; s.g = g; s.env = env; s.owned = set(env); s.lc = None
+        s.cp = cp; s.blk = blk; s.phase = phase; s.g = g; s.env = env; s.owned = set(env); s.lc = None; s.fg = None
     def clone(s, g):
         n = State(s.cp, s.blk, s.phase, g, dict(s.env)); n.owned = set(); s.owned = set()
         if s.lc: n.lc = dict(s.lc)
+        n.fg = s.fg
         return n
     def get(s, cp, idx):
         f = s.env.get(cp)
@@ -201,6 +202,7 @@ def merge_states(a, b):
                     nf = dict(fa); a.env[cp] = nf; a.owned.add(cp)
             nf[idx] = merge(gb, vb, va)
     a.g = Or(a.g, gfull)
+    a.fg = None
     if b.lc:
         if not a.lc: a.lc = dict(b.lc)
         else:
@@ -519,6 +521,7 @@ class Machine(object):
         th.rootcp = cp
         th.startkey = (cp, 'bb0', 'S')
         th.states[th.startkey] = State(cp, 'bb0', 'S', started, {cp: {i + 1: a for i, a in enumerate(args)}})
+        if started is TRUE: th.states[th.startkey].fg = TRUE
         th.started = started
         return th
     # ---------------------------------------------------------------- stepping
@@ -542,13 +545,36 @@ class Machine(object):
             merge_states(old, st)
     def stop_at(s, st, phase, check=True):
         if st.g is FALSE: return
-        if check and s.pruner is not None and phase != 'E' and not s.pruner.feasible(st.g):
-            s.stats['pruned'] = s.stats.get('pruned', 0) + 1; return
+        if check and s.pruner is not None and phase != 'E':
+            if s.only_budget_added(st):
+                s.stats['prune_skipped'] = s.stats.get('prune_skipped', 0) + 1
+            elif not s.pruner.feasible(st.g):
+                s.stats['pruned'] = s.stats.get('pruned', 0) + 1
+                if s.debug: kk = (s.fn_of(st.cp).name[-40:], st.blk, s.cur.name); s.stats.setdefault('pruned_at', {}); s.stats['pruned_at'][kk] = s.stats['pruned_at'].get(kk, 0) + 1
+                return
+            st.fg = st.g
         st.phase = phase; st.lc = None
         k = st.key
         old = s.newstates.get(k)
         if old is None: s.newstates[k] = st
         else: merge_states(old, st)
+    def only_budget_added(s, st):
+        """True if st.g is the last guard known feasible for this lineage plus budget literals only (those are free variables)"""
+        fg = st.fg
+        if fg is None: return False
+        if fg is st.g: return True
+        g = st.g
+        if g.op != 'and': return g.act is not None and fg is TRUE
+        base = conj(fg)
+        for x in g.args:
+            if x.id in base or x.act is not None: continue
+            return False
+        # every conjunct of fg must still be there (or be a weaker budget literal of the same slot)
+        have = conj(g)
+        for x in (fg.args if fg.op == 'and' else (fg,)):
+            if x.id in have or x.act is not None: continue
+            return False
+        return True
     def site_native(s, cp, blk):
         t = s.fn_of(cp).blocks[blk].term
         if t[0] != 'call': raise EncodeError('position not at a call: %r' % (t,))
